@@ -3,7 +3,7 @@
    Statements only; proofs in Store/Crash.v.  The database is a machine with a durable state and
    a volatile transaction copy: Begin copies, statements act on the copy, Commit publishes it, a
    crash discards it; every request = Begin, its statements, Commit, then the acknowledgement. *)
-From Verif Require Import Base.Bytes Store.GraphCount Store.GraphWalk Store.Model Store.ProofsRows Store.ProofsHash Store.ProofsTop Store.Crash.
+From Verif Require Import Base.Bytes Store.GraphCount Store.GraphWalk Store.Model Store.ProofsRows Store.ProofsHash Store.ProofsTop Store.Crash Store.Init.
 From Verif Require Import Properties.StoreExample.
 
 (* for every history, every decomposition of each request into statements with the request's
@@ -39,3 +39,35 @@ Example C04_example :
   acks (crash_at ex_stmts st0 0 ex_ops 19) = 4 /\
   length (s_edges (durable (crash_at ex_stmts st0 0 ex_ops 19))) = 5.
 Proof. split; [reflexivity|]. vm_compute. split; reflexivity. Qed.
+
+(* ---------- first-time initialisation (NewSqliteDb: initMeta, runMigrations, initRoot, initJwtKey) ---------- *)
+
+(* whatever number k of the transactions of a first open were committed before the process died,
+   for whatever ids and key the two runs invent, a complete re-open leaves exactly one meta row *)
+Theorem C04_init_one_meta :
+  forall fr1 fr2 k, length (d_meta (open_db (open_crash empty_disk fr1 k) fr2)) = 1%nat.
+Proof. exact init_one_meta. Qed.
+Print Assumptions C04_init_one_meta.
+
+(* once an instance root and a signing key are on disk every later open keeps them *)
+Theorem C04_init_keeps_root_and_key :
+  forall d fr m, d_meta d = [m] -> m_root m <> [] -> m_key m <> [] ->
+    exists m', d_meta (open_db d fr) = [m'] /\ m_root m' = m_root m /\ m_key m' = m_key m.
+Proof. exact open_keeps_root_and_key. Qed.
+Print Assumptions C04_init_keeps_root_and_key.
+
+(* for concrete invented values (the statement is an example, not the general claim): at EVERY
+   crash point of a first open, with a configured root id and with an invented one, the re-open finds
+   its root through a live edge and has a key, and a further open changes neither *)
+Definition ex_fr (cfg : bytes) (n : N) : fresh := mkFresh cfg [114%N; n] [97%N; n] [107%N; n] 1%Z.
+Definition init_ok (cfg : bytes) (k : nat) : bool :=
+  let d1 := open_db (open_crash empty_disk (ex_fr cfg 1) k) (ex_fr cfg 2) in
+  let d2 := open_db d1 (ex_fr cfg 3) in
+  root_found d1 &&
+  match d_meta d1, d_meta d2 with
+  | [m1], [m2] => negb (bytes_eqb (m_key m1) []) && bytes_eqb (m_root m1) (m_root m2) && bytes_eqb (m_key m1) (m_key m2)
+  | _, _ => false
+  end.
+Example C04_init_example :
+  forallb (init_ok []) (seq 0 12) = true /\ forallb (init_ok [105%N;110%N;115%N;116%N]) (seq 0 12) = true.
+Proof. vm_compute. split; reflexivity. Qed.
